@@ -12,10 +12,11 @@ Driver ops of C06/C07: one line = one history over several live sets.
 Observation per op: mutators print the touched set as `sorted(self._cidrs)` at value level
 (`ver:value/plen`); `q` prints
   eq subset superset lt gt disjoint size len contiguous iprange ipranges in iter ne le ge bool repr
-Every column of a `q` row is one `IPSet.QOp` evaluated by `IPSet.runQs` (the store of live sets
-is threaded through the queries; `C07.queries_pure` says it comes back unchanged) with
-`IPSet.evalQFast` (= `IPSet.evalQ`, `C07.evalQFast_eq`).  `iter` is `IPSet.iterAddrs` (only asked
-for when `size ≤ 64`), `repr` is the text `IPSet.reprText`.
+Every column of a `q` row but the last is one `IPSet.QOp` evaluated by `IPSet.runQs` (the store of
+live sets is threaded through the queries; `C07.queries_pure` says it comes back unchanged and
+that every answer is `IPSet.evalQ` on it) with `IPSet.evalQFast` (= `IPSet.evalQ`,
+`C07.driver_eval_eq`).  `iter` is `IPSet.iterAddrs` (only asked for when `size ≤ 64`); the last
+column is the text `IPSet.reprText` (Model/IPSetText.lean, `C06.repr_text_eq_iff`).
 -/
 namespace NV.Driver.C06
 open NV NV.Proto NV.IPSet
